@@ -296,6 +296,45 @@ def drive_resampler(rng, n, w, scheme, blobs):
     return bad
 
 
+def big_pool_resampler(seed):
+    """Resampler.run on pools of 1200..6000 entries (a long run's persistent pool) at the final temperatures: the selected rows are
+    ONE comb over exactly the weights handed in (every positive-weight row selectable)."""
+    from tempest.state_manager import StateManager
+    from tempest.steps.resample import Resampler
+    rng = np.random.default_rng(seed)
+    bad = []
+    m = int(rng.integers(1200, 6000))
+    n = int(rng.choice([32, 64, 200]))
+    w = rng.dirichlet(np.full(m, 10 ** rng.uniform(-1, 0.5)))
+    sm = StateManager(2)
+    cuts = sorted(set(rng.integers(1, m, size=3).tolist()))
+    for p_ in np.split(np.arange(m), cuts):
+        u = np.stack([p_ / m * 0.999, (p_ % 7) / 7.0], axis=1)
+        sm.update_current(dict(u=u, x=10 * u + 1, logl=-p_.astype(float), beta=0.5, logz=0.0))
+        sm.commit_current_to_history()
+    beta = float(rng.choice([1.0, 1 - 5e-5, 1 - 1e-9, 0.999, 0.5]))
+    sm.set_current("beta", beta)
+    for scheme in ("syst", "mult"):
+        rs = Resampler(sm, n_particles=n, resample=scheme, clusterer=None, clustering=False)
+        if scheme == "syst":
+            rs.run(w.copy())
+            ids = np.rint(-sm.get_current("logl")).astype(int)
+            msg = one_comb(n, w, ids)
+            if msg:
+                bad.append(("resampler-not-a-comb", f"Resampler.run(syst) on a pool of {m} entries at beta={beta!r}: {msg}", None))
+        else:
+            # which probabilities does the multinomial scheme hand to the random stream?
+            with Tap(log=True) as tp:
+                rs.run(w.copy())
+            for e in tp.log:
+                if e[0] == "choice":
+                    p_arg = e[3].get("p") if isinstance(e[3], dict) else None
+                    if p_arg is not None and (len(p_arg) != m or not np.allclose(np.asarray(p_arg, float), w, rtol=1e-9, atol=1e-300)):
+                        bad.append(("mult-weights-altered", f"Resampler.run(mult) on a pool of {m} entries at beta={beta!r} draws from probabilities that are not the weights handed in "
+                                    f"({int(np.sum(np.asarray(p_arg) > 0)) if len(p_arg) == m else len(p_arg)} selectable entries of {int(np.sum(w > 0))})", None))
+    return bad, dict(m=m, n=n, beta=beta)
+
+
 def _batch(seed, start, count, nmax):
     os.environ["VERIF_SEED"] = str(seed)
     ck = Check("C06")
@@ -474,6 +513,16 @@ def run():
     if not ck.quick:
         from tvf.contracts_run import run_suite_with_contracts
         run_suite_with_contracts(ck, ['systematic_resample'])
+    bp = [("tvf.checks.c06:big_pool_resampler", dict(seed=ck.subseed("bigpool", j)), None) for j in range(ck.pick(12, 120))]
+    for i, st, val in farm.run(bp, timeout=900, progress="C06-bigpool"):
+        if st != "ok":
+            ck.inconc(f"big pool {i}: {st} {str(val)[:300]}")
+            continue
+        bad_, d_ = val
+        ck.case(dict(big_pool=d_), nontrivial=True)
+        ck.event("Resampler.run on pools of more than 1000 entries" + (" at a temperature within 1e-4 of one" if d_["beta"] > 1 - 1e-4 else ""))
+        for key, what, wit in bad_:
+            ck.violation(key, what, dict(big_pool=bp[i][1]))
     multinomial_counts(ck)
     posterior_resample(ck)
     ck.require_events("systematic_resample driven at a chosen offset", "comb partition cells integrated",
